@@ -236,22 +236,28 @@ class Report:
             self._known = json.load(open(p))['findings'] if os.path.exists(p) else []
         return self._known
 
-    def classify(self, cls):
-        """Returns the known-finding entry (status 'known') whose class equals cls for this property, else None."""
+    def classify(self, cls, components=()):
+        """Returns the known-finding entry (status 'known') that names this class AND one of the components
+        (the specific operator / call site that fails) for this property, else None."""
         for f in self.known():
-            if f.get('status') == 'known' and f.get('class') == cls and self.pid in f.get('properties', [f.get('property')]):
+            if f.get('status') != 'known' or self.pid not in f.get('properties', []):
+                continue
+            if f.get('class') != cls:
+                continue
+            comp = f.get('component')
+            if comp is None or comp in components:
                 return f
         return None
 
-    def add_violation(self, cls, desc, replay_obj=None, replay_path=None):
-        f = self.classify(cls) if cls else None
+    def add_violation(self, cls, desc, replay_obj=None, replay_path=None, components=()):
+        f = self.classify(cls, components) if cls else None
         if f is not None:
             self.known_hits.setdefault(f['id'], [0, f])[0] += 1
             return False
         if replay_path is None:
             os.makedirs(os.path.join(REPLAYS, self.pid), exist_ok=True)
             h = hashlib.sha1(json.dumps([cls, desc, replay_obj], sort_keys=True, default=str).encode()).hexdigest()[:10]
-            replay_path = os.path.join(REPLAYS, self.pid, '%s-%s.json' % ((cls or 'case').replace('/', '_')[:40], h))
+            replay_path = os.path.join(REPLAYS, self.pid, '%s-%s.json' % ((cls or 'case').replace('/', '_').replace(':', '_')[:40], h))
             with open(replay_path, 'w') as fh:
                 json.dump(dict(property=self.pid, cls=cls, description=desc, replay=replay_obj), fh, indent=1, default=str)
         self.violations.append((cls, desc, replay_path))
